@@ -41,6 +41,21 @@ func RunModule(env *hx.Env, files hx.Files, args ...string) (*Outcome, error) {
 	return o, nil
 }
 
+// RunModuleEnv is RunModule with extra environment variables and exactly the given arguments (none means none).
+func RunModuleEnv(env *hx.Env, files hx.Files, extraEnv []string, args ...string) (*Outcome, error) {
+	dir := env.Scratch("m")
+	if err := hx.WriteTree(dir, files); err != nil {
+		return nil, err
+	}
+	res := hx.Run(env.Bin, hx.RunOpts{Dir: dir, Args: args, Env: extraEnv, Timeout: 60 * time.Second})
+	o := &Outcome{Dir: dir, Res: res}
+	b, err := os.ReadFile(filepath.Join(dir, OutPath))
+	if err == nil {
+		o.Out, o.HasOut = string(b), true
+	}
+	return o, nil
+}
+
 // Cleanup removes the scratch module.
 func (o *Outcome) Cleanup() { _ = os.RemoveAll(o.Dir) }
 
